@@ -39,6 +39,9 @@ def mask_names(m):
     return [NAMES[i] for i in range(NOPT) if m >> i & 1] or ["all-on"]
 
 
+OBSERVERS = ["{a: (%s)}", "{a: 1, b: (%s), c: 2}", "[{k: (%s)}]", "{(\"k\"): (%s), z: .}", "[1, {a: (%s)}, 2]", "{a: {b: (%s)}}", "(%s) as $q | {a: $q, b: 1}", "{a: [(%s)]}"]
+
+
 def run(tier, seed, replay):
     rep = vc.Report(PROP, tier, seed)
     rep.assumptions += ["the switches of verif_hooks.go disable exactly the rewrite they name (they are add-only guards at the rewrite sites)",
@@ -56,76 +59,90 @@ def run(tier, seed, replay):
         else:
             cases = []
             for i in range(900 if quick else 12000):
+                if i % 5 == 4:
+                    cases.append({"id": i, "src": jqgen.join_program(r), "inputs": r.sample(uni, 3 if quick else 5), "masks": [ALL_OFF, 0] + [1 << b for b in range(NOPT)]})
+                    continue
                 src = jqgen.c04_program(r) if r.randrange(5) else "2 as $x | def g(p): [p, p]; def h($a): $a, .; label $l | " + jqgen.program(r, 3)
                 src = jqgen.strip_context(src, r)
+                if r.randrange(4) == 0:
+                    # contexts in which whatever lies UNDER the result on the data stack is used: a leftover value becomes visible
+                    src = r.choice(OBSERVERS) % src
                 masks = [ALL_OFF, 0] + [1 << b for b in range(NOPT)] + [r.randrange(1, ALL_OFF) for _ in range(2 if quick else 6)]
                 cases.append({"id": i, "src": src, "inputs": r.sample(uni, 3 if quick else 5), "masks": masks})
+            look = jqgen.lookalike_programs()
+            for src in (r.sample(look, 300) if quick else look):
+                cases.append({"id": len(cases), "src": src, "inputs": r.sample(uni, 2), "masks": [ALL_OFF, 0] + [1 << b for b in range(NOPT)]})
+            for c in evalfam.regression_cases():
+                cases.append({"id": len(cases), "src": c["src"], "inputs": c["inputs"], "masks": [ALL_OFF, 0] + [1 << b for b in range(NOPT)]})
             cor = evalfam.corpus_cases(work, vh)
             for c in (r.sample(cor, 150) if quick else cor):
                 cases.append({"id": len(cases), "src": c["src"], "inputs": c["inputs"][:3],
                               "masks": [ALL_OFF, 0] + [1 << b for b in range(NOPT)]})
-        results = vc.run_restartable([vh, "optcmp"], cases, work, "oc")
         cnt = {"programs": 0, "config_runs": 0, "agree": 0, "long": 0, "compile_error": 0}
         vmcases = []
-        for case, res in zip(cases, results):
-            if "configs" not in res:
-                continue
-            cnt["programs"] += 1
-            cfgs = res["configs"]
-            base = next((c for c in cfgs if c["mask"] == ALL_OFF and (not res.get("partial") or c is not cfgs[-1])), None)
-            if base is None:
-                continue
-            for c in cfgs:
-                if "panic" in c:
-                    rep.violation("compiler panic with rewrites %s off: %r: %s" % (mask_names(c["mask"]), case["src"], c["panic"]),
-                                  {"family": "optcmp", "case": {"src": case["src"], "input": case["inputs"][0], "mask": c["mask"]}, "actual": c})
+
+        def compare(cases, results, for_vm=True):
+            for case, res in zip(cases, results):
+                if "configs" not in res:
                     continue
-                if ("cerr" in c) != ("cerr" in base):
-                    rep.violation("compile error depends on the optimisation configuration %s: %r: %s vs %s" % (mask_names(c["mask"]), case["src"], c.get("cerr"), base.get("cerr")),
-                                  {"family": "optcmp", "case": {"src": case["src"], "input": case["inputs"][0], "mask": c["mask"]}, "actual": c, "expected": base})
+                cnt["programs"] += 1
+                cfgs = res["configs"]
+                base = next((c for c in cfgs if c["mask"] == ALL_OFF and (not res.get("partial") or c is not cfgs[-1])), None)
+                if base is None:
                     continue
-                if "cerr" in c:
-                    cnt["compile_error"] += 1
-                    continue
-                for j, (run_c, run_b) in enumerate(zip(c.get("runs", []), base["runs"])):
-                    rep.count("evaluations")
-                    cnt["config_runs"] += 1
-                    if "panic" in run_c:
-                        rep.violation("panic with rewrites %s off: %r on %s: %s" % (mask_names(c["mask"]), case["src"], jqgen.unV(case["inputs"][j]), run_c["panic"]),
-                                      {"family": "optcmp", "case": {"src": case["src"], "input": case["inputs"][j], "mask": c["mask"]}, "actual": run_c})
+                for c in cfgs:
+                    if "panic" in c:
+                        rep.violation("compiler panic with rewrites %s off: %r: %s" % (mask_names(c["mask"]), case["src"], c["panic"]),
+                                      {"family": "optcmp", "case": {"src": case["src"], "input": case["inputs"][0], "mask": c["mask"]}, "actual": c})
                         continue
-                    if run_c.get("hang") and not run_b.get("long"):
-                        rep.violation("the interpreter hangs (no return, no reaction to cancellation) with configuration %s but not with all rewrites off: %r on %s" % (
-                            mask_names(c["mask"]), case["src"], jqgen.unV(case["inputs"][j])),
-                            {"family": "optcmp", "case": {"src": case["src"], "input": case["inputs"][j], "mask": c["mask"]}, "actual": {"hang": True}, "expected": run_b["seq"]})
+                    if ("cerr" in c) != ("cerr" in base):
+                        rep.violation("compile error depends on the optimisation configuration %s: %r: %s vs %s" % (mask_names(c["mask"]), case["src"], c.get("cerr"), base.get("cerr")),
+                                      {"family": "optcmp", "case": {"src": case["src"], "input": case["inputs"][0], "mask": c["mask"]}, "actual": c, "expected": base})
                         continue
-                    if run_c.get("polls_out") and not run_b.get("long") and run_b.get("polls", 10 ** 9) < 10000:
-                        # the all-off code finishes in < 10 000 instructions, this configuration is still running after 200 000
-                        rep.violation("termination depends on the optimisation configuration: %r on %s: %s is still running after 200000 instructions, all-off ends after %d" % (
-                            case["src"], jqgen.unV(case["inputs"][j]), mask_names(c["mask"]), run_b["polls"]),
-                            {"family": "optcmp", "case": {"src": case["src"], "input": case["inputs"][j], "mask": c["mask"]},
-                             "actual": {"polls_out": True}, "expected": run_b["seq"]})
+                    if "cerr" in c:
+                        cnt["compile_error"] += 1
                         continue
-                    if run_c.get("long") or run_b.get("long") or "panic" in run_b:
-                        cnt["long"] += 1
-                        rep.count("out_of_model")
-                        continue
-                    if norm_seq(run_c["seq"]) != norm_seq(run_b["seq"]):
-                        rep.violation("outputs differ between optimisation configurations: %r on %s: %s gives %s, all-off gives %s" % (
-                            case["src"], jqgen.unV(case["inputs"][j]), mask_names(c["mask"]),
-                            [jqgen.unV(x["v"]) if "v" in x else x["e"] for x in run_c["seq"]][:8],
-                            [jqgen.unV(x["v"]) if "v" in x else x["e"] for x in run_b["seq"]][:8]),
-                            {"family": "optcmp", "case": {"src": case["src"], "input": case["inputs"][j], "mask": c["mask"]},
-                             "actual": run_c["seq"], "expected": run_b["seq"]})
-                    else:
-                        cnt["agree"] += 1
-                        rep.count("traces_validated_against_impl")
-                        if run_c["seq"]:
-                            rep.nontrivial([case["src"], case["inputs"][j], c["mask"]])
-            # translation validation on the specification for a sample of configurations
-            if "cerr" not in base and (replay or r.randrange(3 if quick else 2) == 0):
-                for m in [0, ALL_OFF, r.choice(case["masks"][2:])]:
-                    vmcases.append({"id": len(vmcases), "src": case["src"], "input": r.choice(case["inputs"]), "mask": m})
+                    for j, (run_c, run_b) in enumerate(zip(c.get("runs", []), base["runs"])):
+                        rep.count("evaluations")
+                        cnt["config_runs"] += 1
+                        if "panic" in run_c:
+                            rep.violation("panic with rewrites %s off: %r on %s: %s" % (mask_names(c["mask"]), case["src"], jqgen.unV(case["inputs"][j]), run_c["panic"]),
+                                          {"family": "optcmp", "case": {"src": case["src"], "input": case["inputs"][j], "mask": c["mask"]}, "actual": run_c})
+                            continue
+                        if run_c.get("hang") and not run_b.get("long"):
+                            rep.violation("the interpreter hangs (no return, no reaction to cancellation) with configuration %s but not with all rewrites off: %r on %s" % (
+                                mask_names(c["mask"]), case["src"], jqgen.unV(case["inputs"][j])),
+                                {"family": "optcmp", "case": {"src": case["src"], "input": case["inputs"][j], "mask": c["mask"]}, "actual": {"hang": True}, "expected": run_b["seq"]})
+                            continue
+                        if run_c.get("polls_out") and not run_b.get("long") and run_b.get("polls", 10 ** 9) < 10000:
+                            # the all-off code finishes in < 10 000 instructions, this configuration is still running after 200 000
+                            rep.violation("termination depends on the optimisation configuration: %r on %s: %s is still running after 200000 instructions, all-off ends after %d" % (
+                                case["src"], jqgen.unV(case["inputs"][j]), mask_names(c["mask"]), run_b["polls"]),
+                                {"family": "optcmp", "case": {"src": case["src"], "input": case["inputs"][j], "mask": c["mask"]},
+                                 "actual": {"polls_out": True}, "expected": run_b["seq"]})
+                            continue
+                        if run_c.get("long") or run_b.get("long") or "panic" in run_b:
+                            cnt["long"] += 1
+                            rep.count("out_of_model")
+                            continue
+                        if norm_seq(run_c["seq"]) != norm_seq(run_b["seq"]):
+                            rep.violation("outputs differ between optimisation configurations: %r on %s: %s gives %s, all-off gives %s" % (
+                                case["src"], jqgen.unV(case["inputs"][j]), mask_names(c["mask"]),
+                                [jqgen.unV(x["v"]) if "v" in x else x["e"] for x in run_c["seq"]][:8],
+                                [jqgen.unV(x["v"]) if "v" in x else x["e"] for x in run_b["seq"]][:8]),
+                                {"family": "optcmp", "case": {"src": case["src"], "input": case["inputs"][j], "mask": c["mask"]},
+                                 "actual": run_c["seq"], "expected": run_b["seq"]})
+                        else:
+                            cnt["agree"] += 1
+                            rep.count("traces_validated_against_impl")
+                            if run_c["seq"]:
+                                rep.nontrivial([case["src"], case["inputs"][j], c["mask"]])
+                # translation validation on the specification for a sample of configurations
+                if for_vm and "cerr" not in base and (replay or r.randrange(3 if quick else 2) == 0):
+                    for m in [0, ALL_OFF, r.choice(case["masks"][2:])]:
+                        vmcases.append({"id": len(vmcases), "src": case["src"], "input": r.choice(case["inputs"]), "mask": m})
+
+        compare(cases, vc.run_restartable([vh, "optcmp"], cases, work, "oc"))
         rep.cov["optcmp"] = cnt
         wfbad = []
 
@@ -140,9 +157,21 @@ def run(tier, seed, replay):
         _, _, vmc = vmfam.check(rep, work, vh, prelude, vmcases, family="vm", tag="c04vm", on_verdict=on_verdict)
         rep.cov["vm"] = vmc
         for rec, v in wfbad[:5]:
-            # a static well-formedness failure is reported only together with an observable: here the model run
             vc.log("CodeWF rejects the bytecode of %r (mask %s): %s" % (rec["src"], rec.get("mask"), v["wf"]))
         rep.cov["codewf_rejections"] = len(wfbad)
+        if wfbad and not replay:
+            # a static rejection is not an observable by itself: search a witness on the REAL code by putting the rejected program into
+            # the observing contexts under every configuration; only a real difference is reported (by compare)
+            seen, wcases = set(), []
+            for rec, v in wfbad:
+                if rec["src"] in seen or len(seen) >= 60:
+                    continue
+                seen.add(rec["src"])
+                for o in OBSERVERS:
+                    wcases.append({"id": len(wcases), "src": o % rec["src"], "inputs": [rec["input"]] + r.sample(uni, 2), "masks": [ALL_OFF, 0] + [1 << b for b in range(NOPT)]})
+            before = len(rep.violations) if hasattr(rep, "violations") else 0
+            compare(wcases, vc.run_restartable([vh, "optcmp"], wcases, work, "ocw"), for_vm=False)
+            rep.cov["codewf_witness_programs"] = len(wcases)
         rep.cov["rule"] = ("programs biased to the rewrite preconditions (jqgen.c04_program), random core programs, corpus; each under all-on, 13 single-off, all-off and "
                            "random subsets x inputs; non-trivial = a configuration run that emitted something; distinct by (source, input, mask)")
         rep.sample({"configs_per_program": 15 + (2 if quick else 6), "switches": NAMES})
